@@ -4,7 +4,7 @@ cd /verif || exit 9
 L=$1; N=${2:-4}
 for k in $(seq 0 $((N-1))); do
   (
-    export VERIF_BUILD=/verif/build/shard$k; mkdir -p $VERIF_BUILD
+    export VERIF_BUILD=/verif/build/shard$((k+4)); mkdir -p $VERIF_BUILD
     out=build/benign_re_$k.log; : > $out
     awk -v n=$N -v k=$k 'NR % n == k' $L | while read d; do
       p=$d/patch.diff
